@@ -46,7 +46,7 @@ var repoDir = "/repo"
 var mainProps = map[string]bool{"C09": true, "C10": true, "C11": true}
 
 // properties that additionally have units in the package-main worker (registered there under this name)
-var alsoMain = map[string]string{"C07": "C07main", "C01": "C01main", "C06": "C06main", "C03": "C03main", "C14": "C14main", "C15": "C15main"}
+var alsoMain = map[string]string{"C07": "C07main", "C01": "C01main", "C06": "C06main", "C03": "C03main", "C14": "C14main", "C15": "C15main", "C16": "C16main", "C08": "C08main"}
 
 type knownEntry struct {
 	Status   string `json:"status"` // "known" | "fixed"
